@@ -515,7 +515,7 @@ func (e *Exec) storePlace(st *State, p *Place, v Value) {
 	}
 	keys, leaves, two := placeLeaves(p)
 	if len(v.L) != len(leaves) {
-		panic(fmt.Sprintf("storePlace: %s has %d leaves, value of %v has %d", p, len(leaves), v.T, len(v.L)))
+		panic(fmt.Sprintf("storePlace: %s has %d leaves, value of %v has %d: %v", p, len(leaves), v.T, len(v.L), v.L))
 	}
 	if st.fresh[p.Base.S] {
 		if st.ownKeys[p.Base.S] == nil {
